@@ -244,17 +244,67 @@ pub fn check(case: &Case, l: &mut Local) -> Verdict {
     Verdict::Pass { nontrivial: !ms.is_empty() && expanded_nonempty }
 }
 
+// ---- bounded-exhaustive: every template of up to 3 tokens x 7 patterns x all haystacks in {a,b}^<=3
+const TT: &[&str] = &["$$", "$0", "$1", "$2", "$3", "$01", "$10", "${n}", "${m}", "${", "$", "x", "}", "$x", "${}", "{n}"];
+const TP: &[(&str, &str)] = &[("(a)(b)?", ""), ("(?<n>a)|(?<n>b)(.)", ""), ("(?<n>a)|b(?<m>.)?", ""), ("a*?", ""), ("(.)", ""), ("", ""), ("(?<n>b*)(?<m>a)", "u")];
+
+fn slice_cases() -> Vec<Case> {
+    let mut ts: Vec<String> = vec![String::new()];
+    let mut layer: Vec<String> = vec![String::new()];
+    for _ in 0..3 {
+        let mut next = vec![];
+        for b in &layer {
+            for t in TT {
+                next.push(format!("{}{}", b, t));
+            }
+        }
+        ts.extend(next.iter().cloned());
+        layer = next;
+    }
+    let mut out = vec![];
+    for t in &ts {
+        for (p, f) in TP {
+            out.push(Case { pat: p.chars().map(|c| c as u32).collect(), flags: f.to_string(), hay: String::new(), hay16: vec![], start: 0, x: json!({ "template": t }) });
+        }
+    }
+    out
+}
+
+fn gen_slice(src: &mut Src, _t: Tier) -> Case {
+    let k = src.below(4);
+    let t: String = (0..k).map(|_| *src.pick(TT)).collect();
+    let (p, f) = *src.pick(TP);
+    Case { pat: p.chars().map(|c| c as u32).collect(), flags: f.to_string(), hay: String::new(), hay16: vec![], start: 0, x: json!({ "template": t }) }
+}
+
+fn check_slice(case: &Case, l: &mut Local) -> Verdict {
+    static HAYS: std::sync::OnceLock<Vec<String>> = std::sync::OnceLock::new();
+    let hays = HAYS.get_or_init(|| super::common::all_strings(&[0x61, 0x62], 3));
+    let mut nontrivial = false;
+    for h in hays {
+        let c = Case { hay: h.clone(), ..case.clone() };
+        match check(&c, l) {
+            Verdict::Fail(m) => return Verdict::Fail(format!("on \"{}\": {}", h, m)),
+            Verdict::Pass { nontrivial: n } => nontrivial |= n,
+            _ => {}
+        }
+    }
+    Verdict::Pass { nontrivial }
+}
+
+pub static VX: Variant = Variant { name: "exhaustive_templates", choice_len: 6, gen: gen_slice, check: check_slice };
 pub static V: Variant = Variant { name: "replace_model", choice_len: 400, gen, check };
 
 pub fn variants() -> Vec<&'static Variant> {
-    vec![&V]
+    vec![&V, &VX]
 }
 
 pub fn run(ctx: &Ctx) -> i32 {
+    ctx.run_list(&VX, &slice_cases());
     ctx.run_variant(&V, ctx.scale(500_000, 8_000_000));
     ctx.finish(
         "exploration",
-        "generated patterns (empty, adjacent, multi-byte matches) x haystacks x templates from a token grammar ($, digit runs incl. $0 $01 $10, ${name} existing/missing/duplicated/unterminated, $$, $$$, trailing $, $x, multi-byte text); oracle = splice H[last..m.start] ++ expand(T,m) over the library's own find_iter sequence with the documented template language; closure variants: identity, constant (length arithmetic), call order, first-only. Non-trivial = at least one match and a $-form that expands to non-empty text.",
+        "(bounded-exhaustive) EVERY template of up to 3 tokens from {$$, $0, $1, $2, $3, $01, $10, ${n}, ${m}, ${, $, x, }, $x, ${}, {n}} x 7 patterns (optional and duplicated-name groups, empty and lazy matches) x ALL haystacks in {a,b}^<=3; generated patterns (empty, adjacent, multi-byte matches) x haystacks x templates from a token grammar ($, digit runs incl. $0 $01 $10, ${name} existing/missing/duplicated/unterminated, $$, $$$, trailing $, $x, multi-byte text); oracle = splice H[last..m.start] ++ expand(T,m) over the library's own find_iter sequence with the documented template language; closure variants: identity, constant (length arithmetic), call order, first-only. Non-trivial = at least one match and a $-form that expands to non-empty text.",
         &["the match sequence itself is taken from find_iter (C01/C09 judge it)", "a digit run is outside the asserted contract only when its value WITHOUT its last digit already exceeds 65535 (the implementation stops reading digits there); every other run - including $65535, $65536, $655350 - must expand to the group of that number or to nothing", "named groups resolve to the participating group (C16)"],
     )
 }
